@@ -71,3 +71,54 @@ func VerifRun_C17d() {
 		verifViolation("", "harness: the program no longer produces the cross-file diagnostics (types 2, 3, 10)")
 	}
 }
+
+// C17-d2: the same end-to-end comparison over a program that also triggers the expression-level checks
+// (13 duplicate parameter, 14 same operands, 15 / 16 constant or / and, 19 duplicate condition, 21 float
+// equality): every choice of up to two check types switched off.
+const c17d2Prog = "function foo(a) return a end\nfoo(1, 2, 3)\nprint(nodef)\nlocal unused = 1\nlocal t = { k = 1, k = 2 }\nxx = 1\nxx = xx\nlocal function dp(p, p) end\nlocal v = xx\nlocal b1 = v ~= v\nlocal b2 = v == 1.5\nlocal b3 = v or true\nlocal b4 = v and false\nif v then xx = 2 elseif v then xx = 3 end\nlocal b5 = v < v\nprint(b1, b2, b3, b4, b5, dp)\n"
+
+var c17d2Types = []int{2, 4, 5, 10, 13, 14, 15, 16, 19, 20, 21}
+
+func VerifRun_C17d2() {
+	root := verifVFSRoot()
+	c08workspace(root)
+	verifVFSPut(root+"/a.lua", []byte(c17d2Prog))
+	all := make([]bool, 26)
+	for i := range all {
+		all[i] = true
+	}
+	flags := make([]bool, 26)
+	copy(flags, all)
+	i1 := verifConcretize(verifRange("off1", 0, len(c17d2Types)-1))
+	i2 := verifConcretize(verifRange("off2", 0, len(c17d2Types)-1))
+	flags[c17d2Types[i1]] = false
+	flags[c17d2Types[i2]] = false
+	base := c17dRun(root, all)
+	got := c17dRun(root, flags)
+	verifReach("compared")
+	seen := map[int]bool{}
+	for k := range base {
+		t := 0
+		for i := 0; i < len(k) && k[i] != '@'; i++ {
+			t = t*10 + int(k[i]-'0')
+		}
+		seen[t] = true
+		off := t < 26 && !flags[t]
+		if off && got[k] {
+			verifViolation("", "a diagnostic of a switched-off type is still reported")
+		}
+		if !off && !got[k] {
+			verifViolation("", "switching off some check types removed a diagnostic of a type that is still on")
+		}
+	}
+	for k := range got {
+		if !base[k] {
+			verifViolation("", "switching off some check types produced a diagnostic that is absent with all checks on")
+		}
+	}
+	for _, t := range c17d2Types {
+		if !seen[t] {
+			verifViolation("", "harness: the program no longer produces a diagnostic of every listed type")
+		}
+	}
+}
